@@ -27,6 +27,13 @@ func runCrash(rep *Report) {
 		if *fTier == "thorough" {
 			p.Txs = 14
 		}
+		if i%12 == 11 {
+			// a free region whose length sits at an encoding boundary of the free list entries
+			// (254..256: the 8 bit counter / overflow marker), recovered by a reopen and allocated from
+			cfg.MaxPages = 0
+			p.FreeRun = 254 + (i/12)%3
+			p.Txs = 6
+		}
 		s := engine.RunProgram(r, cfg, p)
 		s.Finish()
 		if tw != nil {
